@@ -61,6 +61,11 @@ class Level(enum.Enum):
 @dataclasses.dataclass
 class Holder:
     item: BaseDC = None
+import decimal
+@dataclasses.dataclass(frozen=True)
+class FrozenP:
+    amount: decimal.Decimal = decimal.Decimal(0)
+    n: int = 0
 @dataclasses.dataclass
 class NoInit:
     a: int = 0
@@ -205,6 +210,20 @@ def alphabet():
     ma("m({1:'x'},dict[str,str])", "num", lambda: dict[str, str], lambda: {1: "x"})
     ma("m({1.0:'x'},dict[str,str])", "num", lambda: dict[str, str], lambda: {1.0: "x"})
     ma("m({True:'x'},dict[str,str])", "num", lambda: dict[str, str], lambda: {True: "x"})
+    # values that are EQUAL (== and hash) but print differently, alone and inside a frozen (hashable) dataclass
+    import decimal as _d
+
+    FrozenP = m["FrozenP"]
+    ma("m(Decimal('1.50'))", "decimal", _d.Decimal, lambda: _d.Decimal("1.50"))
+    ma("m(Decimal('1.5'))", "decimal", _d.Decimal, lambda: _d.Decimal("1.5"))
+    ma("m(Decimal('-0'))", "decimal", _d.Decimal, lambda: _d.Decimal("-0"))
+    ma("m(Decimal('0'))", "decimal", _d.Decimal, lambda: _d.Decimal("0"))
+    ma("m({Decimal('1.50'):1})", "decimal", lambda: dict[_d.Decimal, int], lambda: {_d.Decimal("1.50"): 1})
+    ma("m({Decimal('1.5'):1})", "decimal", lambda: dict[_d.Decimal, int], lambda: {_d.Decimal("1.5"): 1})
+    ma("m(FrozenP('1.50',1))", "decimal", FrozenP, lambda: FrozenP(_d.Decimal("1.50"), 1))
+    ma("m(FrozenP('1.5',True))", "decimal", FrozenP, lambda: FrozenP(_d.Decimal("1.5"), True))
+    um("u(Decimal,'1.50')", "decimal", _d.Decimal, lambda: "1.50")
+    um("u(Decimal,'1.5')", "decimal", _d.Decimal, lambda: "1.5")
     # variadic, fixed and empty tuples (one origin, three routine classes) and bool / int (one routine class, two primitives)
     um("u(tuple[int,...],['1','2','3'])", "tuple", lambda: tuple[int, ...], lambda: ["1", "2", "3"])
     um("u(tuple[str,int],['1','2'])", "tuple", lambda: tuple[str, int], lambda: ["1", "2"])
